@@ -52,6 +52,16 @@ def solveFlow (h : Heur) (m : Mode) : Flow :=
     | .invalid => (base ++ [.prepare], 1, true)
   { calls := calls, dualsFrom := 1, primalFrom := last, raises := bad || (m == .invalid) }
 
+/-- the public front-end `PEP.solve(wrapper=name, …)`: the name is lower-cased; the requested back-end is used when its package
+is installed and its licence check passes, otherwise cvxpy; every other option is handed to `_solve_with_wrapper` unchanged -/
+def resolveWrapper (name : String) (installed licensed : String → Bool) : String :=
+  let n := name.toLower
+  if !installed n then "cvxpy" else if !licensed n then "cvxpy" else n
+
+/-- `PEP.solve` = `_solve_with_wrapper` of the resolved back-end with the SAME heuristic, mode and tolerance -/
+def solveFront (name : String) (installed licensed : String → Bool) (h : Heur) (m : Mode) : String × Flow :=
+  (resolveWrapper name installed licensed, solveFlow h m)
+
 /-- when the first solve reports no value, nothing else happens and `None` is returned -/
 def failedFlow : Flow := { calls := [.solve 1], dualsFrom := 0, primalFrom := 0, raises := false }
 
